@@ -100,6 +100,10 @@ def run(chk):
         chk.ob("R13.1", CR, q, "|det T(R->H)| == 3 (the hexagonal cell is three times the rhombohedral one)",
                abs(mat_det(Ts["R2H"])) == 3, found=str(mat_det(Ts["R2H"])))
         chk.ob("R13.1", CR, q, "|det T(H->R)| == 1/3", abs(mat_det(Ts["H2R"])) == Fraction(1, 3), found=str(mat_det(Ts["H2R"])))
+        chk.ob("R13.1", CR, q, "both basis changes are proper (positive determinant): an improper one turns the cell left-handed and the structure "
+               "into its mirror image once the cell is rebuilt from lengths and angles (P1 expansion, CIF/SHELX export)",
+               mat_det(Ts["R2H"]) > 0 and mat_det(Ts["H2R"]) > 0, fingerprint="proper-basis", expected="det = +3 and +1/3",
+               found=f"det T(R->H) = {mat_det(Ts['R2H'])}, det T(H->R) = {mat_det(Ts['H2R'])}")
         for meth, key in (("as_rhombohedral", "H2R"), ("as_hexagonal", "R2H")):
             fn = uc.func(f"UnitCell.{meth}")
             chk.saw(UC, f"UnitCell.{meth}")
